@@ -112,6 +112,7 @@ class Audit:
         self.outside_zero = []     # (s, a, ns): zero-probability entries outside state_list
         self.state_list = None
         self.planned = False
+        self.truncated = False     # BFS stopped at the state bound
         self.vi_converged = None
         self.edges = {}            # (s, a) -> {ns: p}  (positive only)
         self.rewards = {}          # (s, a, ns) -> float reward reported for a positive-probability edge
@@ -162,10 +163,15 @@ def check_dist(items, au, what, ctx):
     return ok
 
 
-def audit(dom, pomdp=False, plan=True, vi_cap=None):
+def audit(dom, pomdp=False, plan=True, vi_cap=None, max_states=10000):
     """Explicit-state BFS over everything reachable from the initial distribution (absorbing
     states are audited but not expanded: the process ends there), then every remaining member of
-    state_list, then the tabular arrays, then planning."""
+    state_list, then the tabular arrays, then planning.
+
+    The BFS runs BEFORE the library is asked for its state list (which may itself be a reachability
+    analysis) and stops at `max_states` (the caller passes a bound derived from the layout): a
+    domain whose reachable set exceeds what its layout allows is reported, and the steps that would
+    not terminate on it (state list inference, arrays, planning) are skipped."""
     CA = _caught()
     au = Audit()
 
@@ -177,23 +183,9 @@ def audit(dom, pomdp=False, plan=True, vi_cap=None):
         init = []
     check_dist(init, au, 'initial_dist', {})
 
-    # ---- state list ------------------------------------------------------------------------
-    sset = None
-    try:
-        sl = dom.state_list
-        au.state_list = list(sl)
-        sset = set(au.state_list)
-        if len(sset) != len(au.state_list):
-            au.add('state_list:duplicates', {'n': len(au.state_list), 'distinct': len(sset)})
-    except CA as e:
-        au.add('exception:state_list', _exc_detail('state_list', e), e, 'state_list')
-
-    for s, p in init:
-        if p > 0 and sset is not None and s not in sset:
-            au.add('initial_dist:outside_state_list', {'state': repr(s), 'p': p}, key=s)
-            au.outside_pos.append((None, None, s))
-
     # ---- BFS -------------------------------------------------------------------------------
+    zeros = []                 # (s, a, ns) entries carrying probability 0
+
     def visit(s, expand):
         """audit state s; return positive-probability successors if it is to be expanded"""
         out = []
@@ -226,17 +218,13 @@ def audit(dom, pomdp=False, plan=True, vi_cap=None):
             for ns, p in its:
                 if p > 0:
                     pos[ns] = pos.get(ns, 0.0) + p
-                elif p == 0 and sset is not None and ns not in sset:
-                    au.outside_zero.append((s, a, ns))
+                elif p == 0:
+                    zeros.append((s, a, ns))
             au.edges[(s, a)] = pos
             if expand and not absorbing and len(pos) == 1 and s in pos:
                 au.self_loops.add(a)
             for ns, p in pos.items():
                 au.n_edges += 1
-                if sset is not None and ns not in sset:
-                    au.add('successor_outside_state_list',
-                           dict(ctx, successor=repr(ns), p=p, source_absorbing=absorbing), key=ns, where=(s, a))
-                    au.outside_pos.append((s, a, ns))
                 try:
                     rew = dom.reward(s, a, ns)
                     rf = float(rew)
@@ -264,25 +252,61 @@ def audit(dom, pomdp=False, plan=True, vi_cap=None):
             au.reached[s] = 0
             frontier.append(s)
     d = 0
-    while frontier:
+    while frontier and not au.truncated:
         nxt = []
         for s in frontier:
             for ns in visit(s, True):
                 if ns not in au.reached:
                     au.reached[ns] = d + 1
                     nxt.append(ns)
+            if len(au.reached) > max_states:
+                au.truncated = True
+                break
         if nxt:
             d += 1
         frontier = nxt
     au.depth = d
     au.n_states = len(au.reached)
+    if au.truncated:
+        au.add('reachable_states_exceed_layout_bound',
+               {'bound': max_states, 'reached_so_far': len(au.reached), 'example': repr(next(reversed(au.reached)))})
+        return au
+
+    # ---- state list (asked for only now, see docstring) ----------------------------------------
+    sset = None
+    try:
+        sl = dom.state_list
+        au.state_list = list(sl)
+        sset = set(au.state_list)
+        if len(sset) != len(au.state_list):
+            au.add('state_list:duplicates', {'n': len(au.state_list), 'distinct': len(sset)})
+    except CA as e:
+        au.add('exception:state_list', _exc_detail('state_list', e), e, 'state_list')
 
     # ---- the rest of the state list (walls, cells cut off from the start, ...) ---------------
     if au.state_list is not None:
         for s in au.state_list:
             if s not in au.reached:
                 au.n_extra_states += 1
-                visit(s, False)
+                if au.n_extra_states <= max_states:
+                    visit(s, False)
+
+    # ---- membership of every initial state / successor in the state list -----------------------
+    if sset is not None:
+        for s, p in init:
+            if p > 0 and s not in sset:
+                au.add('initial_dist:outside_state_list', {'state': repr(s), 'p': p}, key=s)
+                au.outside_pos.append((None, None, s))
+        for (s, a), pos in au.edges.items():
+            for ns, p in pos.items():
+                if ns not in sset:
+                    au.add('successor_outside_state_list',
+                           {'state': repr(s), 'action': repr(a), 'successor': repr(ns), 'p': p,
+                            'source_absorbing': s in au.absorbing}, key=ns, where=(s, a))
+                    au.outside_pos.append((s, a, ns))
+        for (s, a, ns) in zeros:
+            if ns not in sset:
+                au.outside_zero.append((s, a, ns))
 
     # ---- tabular arrays ----------------------------------------------------------------------
     import numpy as np
